@@ -146,7 +146,7 @@ func (p *pauseCtl) hook(site string) {
 	p.mu.Lock()
 	stop := false
 	if strings.HasPrefix(site, "q.") {
-		if p.atSite == site && !p.done {
+		if (p.atSite == site || p.atSite == "q.*") && !p.done {
 			p.done = true
 			stop = true
 		}
@@ -740,7 +740,9 @@ func (c *lockCase) readerSchedules(r *Runner, l *Line, scheds []lockSchedule, n,
 		if err != nil {
 			return false
 		}
-		site := "q." + strings.TrimSuffix(sc.Reader, "/remember")
+		// the query is suspended the first time it has taken a lock (whichever method took it:
+		// a query may be composed of several locked sections)
+		site := "q.*"
 		ctl := &pauseCtl{atSite: site, paused: make(chan struct{}), release: make(chan struct{})}
 		utreexo.VerifPoint = ctl.hook
 		type qres struct{ kind, ans string }
